@@ -117,12 +117,24 @@ pub fn run(args: &Args) -> Report {
     } else {
         let n = if args.thorough { 30000 } else { 1500 };
         for i in 0..n {
-            let toks = gen_document(&g, &mut rng, GenOpts { opt_prob: [15, 35, 60][i % 3], version: [6u8, 6, 5, 3][i % 4], deprecated: i % 5 == 0, specials: i % 4 == 2, ..GenOpts::default() });
+            let toks = gen_document(&g, &mut rng, GenOpts { opt_prob: [15, 35, 60][i % 3], version: [6u8, 6, 5, 3][i % 4], deprecated: i % 5 == 0, specials: i % 4 == 2, dup_names: i % 3 == 1, ..GenOpts::default() });
             let mut text = render(&toks, &mut rng, [Layout::Canonical, Layout::Wild, Layout::Dense][i % 3], i % 7 == 2);
             let mut fam = "document";
             if i % 4 == 1 {
                 // uninterpreted IF_DATA in the first MODULE
-                let ints = ["0", "1", "-1", "255", "0x10", "0xFFFF", "2147483647", "-2147483648", "2147483648", "4294967295", "4294967297", "0x1FFFFFFFF", "-9000000000", "18446744073709551615", "0xFFFFFFFFFFFFFFFF", "1e3", "2.5", "-0.125", "16777217"];
+                // fixed boundary literals, and random literals of every width so that every digit (the hex digits e / E
+                // and the decimal point included) occurs at every magnitude
+                let mut ints: Vec<String> = ["0", "1", "-1", "255", "0x10", "0xFFFF", "2147483647", "-2147483648", "2147483648", "4294967295", "4294967297", "0x1FFFFFFFF", "-9000000000", "18446744073709551615", "0xFFFFFFFFFFFFFFFF", "1e3", "2.5", "-0.125", "16777217", "9007199254740993", "-9223372036854775808", "0xFEDCBA9876543210", "0x8000000000000001", "0X1E00000000000001"].iter().map(|s| s.to_string()).collect();
+                for _ in 0..6 {
+                    let bits = 1 + rng.below(64);
+                    let v = rng.next() >> (64 - bits);
+                    ints.push(match rng.below(4) {
+                        0 => format!("0x{v:x}"),
+                        1 => format!("0x{v:X}"),
+                        2 => format!("{v}"),
+                        _ => format!("-{}", v >> 1),
+                    });
+                }
                 let mut p = String::from("/begin IF_DATA VENDOR_X");
                 for _ in 0..(1 + rng.below(6)) {
                     match rng.below(5) {
